@@ -406,8 +406,9 @@ def solve_sat(
             add_watch(clause[1], i)
 
     # Pure literals preserve satisfiability, not the set of models: only when a single model is wanted.
+    assumed = {lit_var(lit) for lit in assumptions}
     for var, val in find_pure_literals() if solution_limit == 1 else ():
-        if vals[var] == UNDEF:
+        if vals[var] == UNDEF and var not in assumed:
             assign(var, val, -1)
 
     for lit, idx in unit_clauses:
